@@ -57,9 +57,17 @@ func ctxVal(ctx []interface{}, key string) string {
 
 // catchup runs the real start-up path on a copy of the files and renders "replay=<tokens> outcome=<o>"
 func (e *exec) catchup(keys map[string]int) string {
-	os.RemoveAll(walDirOfConfig)
+	// empty the directory but never remove it: when Start panics half way (a corrupted log), the WAL group it had already
+	// started keeps its 5 s ticker goroutine (ConsensusState.Stop refuses a service that never finished starting), and a tick
+	// that finds the directory gone panics in readGroupInfo — in a goroutine nobody recovers, which killed the harness in
+	// the thorough tier (a harness artefact, DESIGN 10.4)
 	if err := os.MkdirAll(walDirOfConfig, 0o700); err != nil {
 		panic("harness: mkdir: " + err.Error())
+	}
+	if old, err := os.ReadDir(walDirOfConfig); err == nil {
+		for _, en := range old {
+			os.RemoveAll(filepath.Join(walDirOfConfig, en.Name()))
+		}
 	}
 	ents, _ := os.ReadDir(e.dir)
 	for _, en := range ents {
